@@ -8,16 +8,16 @@ import os
 ROOT = os.path.dirname(os.path.dirname(os.path.abspath(__file__)))
 
 T = {
- "C01": ("exploration", "6 C01", "bounded exhaustive exploration: complete alphabet product / 1-deviation enumeration of keys x messages x suites on the real curve",
+ "C01": ("exploration", "6 C01 + 13.1", "bounded exhaustive exploration: all (key, message) tuples within one deviation of a default over boundary alphabets (bit-length sweep, all-ones, leading-byte-of-p encodings, own-pk and >64 KiB messages) x 3 suites, each case a short call history; rejected keys/types enumerated completely",
          "Every (suite, key, message) of the stated alphabet is signed and verified by the real code; rejected keys/types enumerated completely. Complete over the alphabet, not over all 2^255 keys.",
          "alphabets of DESIGN 6/C01; ladder correctness for all scalars is covered on small curves by C07"),
- "C02": ("exploration", "6 C02", "bounded exhaustive enumeration of candidate signatures (all single-bit flips, re-encodings, algebraic variants) with an analytic oracle",
+ "C02": ("exploration", "6 C02 + 13.1", "bounded exhaustive enumeration of model-built candidate signatures (other key/message/suite/tag, -S, 2S, S+torsion, re-encodings, bit flips) as histories (honest signature first and last) with an analytic oracle",
          "Verify/PopVerify run on every member of the candidate domain; expected verdict = byte equality with an independent model signature.",
          "independent BLS model (mc.model.bls) anchored to published vectors"),
- "C03": ("model_checking", "6 C03", "explicit-state exploration of aggregation states (multisets of (signer,message)), every permutation/grouping and every single-element deviation, lock-step with a formal-vector reference model",
+ "C03": ("model_checking", "6 C03 + 13.1", "explicit-state exploration of aggregation states (multisets of (signer,message) incl. coincident and cancelling signers), every permutation/grouping, every single-element deviation and cross-suite histories, lock-step with a formal-vector reference model",
          "States = multisets of (signer, message) up to the bound; every transition executed on the real Aggregate/AggregateVerify/FastAggregateVerify and on the reference model.",
          "linear independence of distinct hash points over Z_r (probability of failure ~2^-255)"),
- "C04": ("exploration", "6 C04", "bounded exhaustive enumeration of byte strings (length classes x flag combinations x coordinate classes x list positions) with a pairing-argument monitor",
+ "C04": ("exploration", "6 C04 + 13.1", "deviation-bounded enumeration of byte strings (length classes x 8 flag combinations x coordinate classes x list positions, cancelling keys / torsion, identity variants) over 5 entry points x 3 suites with a model-checked pairing-argument monitor",
          "All five verification entry points of three suites run on every member of the byte-string domain; outcome must be a bool, False unless the model decodes a valid subgroup point; the monitor checks every pairing argument.",
          "zcash / ec reference models; byte strings outside the class grid are not covered"),
  "C05": ("exploration", "6 C05", "exhaustive enumeration of scalar grids at full size and of whole groups on tiny pairing curves (same function bodies via the configuration loader)",
@@ -61,7 +61,7 @@ T = {
          "secp256k1 add/multiply vs the affine model on complete small groups.", "ec model; SEC 2 constants"),
  "C19": ("model_checking", "6 C19", "exhaustive enumeration of every (v, r, s, z) on tiny curves (loader) + complete alphabet product at full size against the recovery algebra",
          "ecdsa_raw_recover outcome (point or ValueError) vs model on every tuple.", "ecdsa model"),
- "C20": ("model_checking", "6 C20", "explicit-state exploration of call histories: every operation alone in a fresh interpreter, all ordered pairs (triples) of operations, canonical deep snapshot of all module/class state after every call",
+ "C20": ("model_checking", "6 C20 + 13.1", "explicit-state exploration of call histories over a 150-operation alphabet: every operation alone in a fresh interpreter, adjacent ordered pairs, total orders, systematically generated one-argument-perturbed neighbour calls; canonical snapshot of constants, argument snapshots and result equality with the fresh interpreter after every call",
          "State = canonical snapshot of all py_ecc module and class data; every public operation is a transition; results compared with fresh-interpreter results.",
          "snapshot completeness is guarded by the pair/triple result comparison"),
 }
